@@ -36,6 +36,9 @@ func allInstances() []*Instance {
 	regC10(add, p)
 	regC16(add, p)
 	regC19(add, p)
+	regC02(add, p)
+	regC11(add, p)
+	regC12(add, p)
 	return all
 }
 
@@ -138,6 +141,9 @@ func regC04(add addFn, p pFn) {
 	}
 	add(&Instance{Property: "C04", Name: "realm-lines-2x2", Entry: "config.VH_C04_RealmLines", Params: p("lines", 2, "len", 2), Reach: []string{"returned"}, Bound: "2 lines of 0..2 characters over { } = a space"})
 	add(&Instance{Property: "C04", Name: "realm-lines-3x3", Entry: "config.VH_C04_RealmLines", Params: p("lines", 3, "len", 3), Tier: "thorough", TimeoutS: 1500, Reach: []string{"returned"}, Bound: "3 lines of 0..3 characters"})
+	// TCP reply framing: the peer announces an arbitrary 32-bit length
+	add(&Instance{Property: "C04", Name: "sendtcp-length", Entry: "client.VH_C04_SendTCP", Params: p("tcphdr", 1, "maxseq", 0, "maxstr", 0), Stubs: []string{"netstub", "asn1havoc", "randstub"}, Logic: "QF_UFBV", Replay: "stubbed", MaxConc: 1200,
+		Bound: "one KDC over TCP announcing EVERY 32-bit reply length and sending 2 bytes"})
 	// PAC
 	for _, n := range []int{8, 24, 40} {
 		tier := "quick"
@@ -387,6 +393,10 @@ func regC09(add addFn, p pFn) {
 	}
 	add(&Instance{Property: "C09", Name: "krberror-surfaces", Entry: "client.VH_C09_KRBErrorSurfaces", Params: p("maxseq", 0, "strlens", 2, "maxbits", 4), Stubs: clientStubs, Logic: "QF_UFBV", Replay: "stubbed", Reach: []string{"done"},
 		Bound: "EVERY non-negative KRB-ERROR code (except the three the client acts on) as the KDC's answer to an AS-REQ and to a TGS-REQ"})
+	for pref := 0; pref <= 2; pref++ {
+		add(&Instance{Property: "C09", Name: "network-krberror-pref" + itoa(pref), Entry: "client.VH_C12_SendToKDC", Params: p("kdcs", 1, "pref", pref, "maxseq", 0, "maxstr", 0), Stubs: []string{"netstub", "asn1havoc", "randstub"}, Logic: "QF_UFBV", Replay: "stubbed",
+			Reach: []string{"krb-error"}, Bound: "one KDC, every endpoint behaviour; a KRB-ERROR answer (any code) must come back as that KRBError, passed over only for RESPONSE_TOO_BIG on UDP"})
+	}
 	add(&Instance{Property: "C09", Name: "tgsrep", Entry: "messages.VH_C09_TGSRepVerify", Params: p("maxseq", 1, "maxstr", 1, "maxbits", 4), Stubs: st, Logic: "QF_UFBV", Replay: "stubbed",
 		Reach: []string{"accepted", "rejected"}, TimeoutS: 1200, Bound: "as asrep; reply object arrives with arbitrary nonce/srealm in its decrypted part"})
 }
@@ -446,4 +456,50 @@ func regC19(add addFn, p pFn) {
 				Reach: []string{"checked"}, Bound: "one mandatory buffer (logon info / client info / server signature / KDC signature) replaced by an unknown type"})
 		}
 	}
+}
+
+func regC02(add addFn, p pFn) {
+	lt := []string{"lineartime", "yieldlocks"}
+	for _, h := range []string{"Sequential", "NameEncoding", "TwoServices", "Cleanup"} {
+		add(&Instance{Property: "C02", Name: "history-" + h, Entry: "service.VH_C02_" + h, Stubs: lt, Replay: "stubbed", Reach: []string{"done"}, Bound: "history " + h + " from the empty cache; client names of 1 symbolic byte, arbitrary instants, skew in (0, 2^50 ns)"})
+	}
+	add(&Instance{Property: "C02", Name: "history-k4", Entry: "service.VH_C02_History", Params: p("k", 4), Stubs: lt, Replay: "stubbed", Reach: []string{"done"}, Bound: "EVERY history of 4 operations over {present a1, present a2, clean-up}, arbitrary non-decreasing clock, arbitrary distinct client instants, skew in (0,2^50 ns)"})
+	add(&Instance{Property: "C02", Name: "history-k5", Entry: "service.VH_C02_History", Params: p("k", 5), Stubs: lt, Replay: "stubbed", Tier: "thorough", TimeoutS: 3000, SolverMs: 120000, Reach: []string{"done"}, Bound: "every history of 5 operations"})
+	add(&Instance{Property: "C02", Name: "busy-client-n40", Entry: "service.VH_C02_BusyClient", Params: p("n", 40), Stubs: lt, Replay: "stubbed", Unwind: 3000, Reach: []string{"done"}, Bound: "40 tracked authenticators of one client (concrete instants)"})
+	add(&Instance{Property: "C02", Name: "busy-client-n1100", Entry: "service.VH_C02_BusyClient", Params: p("n", 1100), Stubs: lt, Replay: "stubbed", Unwind: 3000, Tier: "thorough", MaxSteps: 400000000, TimeoutS: 1500, Reach: []string{"done"}, Bound: "1100 tracked authenticators of one client"})
+	add(&Instance{Property: "C02", Name: "concurrent-same-2", Entry: "service.VH_C02_ConcurrentSame", Params: p("threads", 2), Stubs: lt, Replay: "stubbed", Reach: []string{"done"}, Bound: "2 goroutines, the same symbolic authenticator, EVERY interleaving at the lock operations"})
+	add(&Instance{Property: "C02", Name: "concurrent-same-3", Entry: "service.VH_C02_ConcurrentSame", Params: p("threads", 3), Stubs: lt, Replay: "stubbed", Tier: "thorough", TimeoutS: 1500, Reach: []string{"done"}, Bound: "3 goroutines, every interleaving"})
+	add(&Instance{Property: "C02", Name: "concurrent-distinct", Entry: "service.VH_C02_ConcurrentDistinct", Stubs: lt, Replay: "stubbed", Reach: []string{"done"}, Bound: "2 verifications of distinct authenticators and a clean-up thread, every interleaving"})
+}
+
+func regC11(add addFn, p pFn) {
+	st := []string{"yieldlocks"}
+	for a := 0; a <= 4; a++ {
+		for b := a; b <= 4; b++ {
+			add(&Instance{Property: "C11", Name: "cache-pair-" + itoa(a) + itoa(b), Entry: "client.VH_C11_CachePair", Params: p("a", a, "b", b), Stubs: append([]string{"jsonuf"}, st...), Replay: "stubbed", Reach: []string{"done"},
+				Bound: "operations a,b in {getEntry, addEntry, RemoveEntry, clear, JSON} on one Cache by 2 goroutines, EVERY interleaving at the lock operations; data races by vector clocks"})
+		}
+	}
+	for a := 0; a <= 6; a++ {
+		for b := a; b <= 6; b++ {
+			add(&Instance{Property: "C11", Name: "session-pair-" + itoa(a) + itoa(b), Entry: "client.VH_C11_SessionPair", Params: p("a", a, "b", b), Stubs: append([]string{"jsonuf", "lineartime"}, st...), Replay: "stubbed", Reach: []string{"done"},
+				Bound: "operations a,b in {sessions.get, sessions.update, session.update, tgtDetails, timeDetails, valid, sessions.JSON} by 2 goroutines, every interleaving"})
+		}
+	}
+	for _, n := range []int{2, 3} {
+		add(&Instance{Property: "C11", Name: "getkdcs-concurrent-n" + itoa(n), Entry: "config.VH_C11_GetKDCsConcurrent", Params: p("n", n), Stubs: append([]string{"randstub"}, st...), Replay: "stubbed", Reach: []string{"done"},
+			Bound: "2 goroutines resolving KDCs from one Config with n servers, every rand outcome, every interleaving"})
+	}
+}
+
+func regC12(add addFn, p pFn) {
+	st := []string{"netstub", "asn1havoc", "randstub"}
+	for _, n := range []int{1, 2} {
+		for pref := 0; pref <= 2; pref++ {
+			add(&Instance{Property: "C12", Name: "send-k" + itoa(n) + "-pref" + itoa(pref), Entry: "client.VH_C12_SendToKDC", Params: p("kdcs", n, "pref", pref, "maxseq", 0, "maxstr", 0), Stubs: st, Logic: "QF_UFBV", Replay: "stubbed", TimeoutS: 1200,
+				Reach: []string{"failed", "answered", "krb-error"}, Bound: "n configured KDCs; EVERY assignment of {answers, refuses, silent/closes early, closes mid-reply (TCP)} to each (KDC, transport) endpoint; pref 0 always TCP / 1 TCP first / 2 UDP first; every shuffle outcome; a reply may or may not decode as a KRB-ERROR with any code"})
+		}
+	}
+	add(&Instance{Property: "C12", Name: "send-k3-pref1", Entry: "client.VH_C12_SendToKDC", Params: p("kdcs", 3, "pref", 1, "maxseq", 0, "maxstr", 0), Stubs: st, Logic: "QF_UFBV", Replay: "stubbed", Tier: "thorough", TimeoutS: 3000,
+		Reach: []string{"failed", "answered", "krb-error"}, Bound: "3 KDCs, TCP first"})
 }
